@@ -84,7 +84,7 @@ def param_mutation_summaries(repo, mutators: set[str]) -> dict:
                         tgt = repo.resolve(f.module, fn.id)
                     except Exception:
                         tgt = None
-                    tfq = getattr(tgt, 'fq', None)
+                    tfq = tgt[1].fq if (tgt and tgt[0] == 'func') else None
                     if tfq in summ:
                         for j, a in enumerate(call.args):
                             if j in summ[tfq] and isinstance(a, ast.Name) and a.id in ps:
@@ -141,7 +141,7 @@ def stale_snapshots(repo, f, snap_names: set[str], mutators: set[str], summaries
                             tgt = repo.resolve(f.module, fn.id)
                         except Exception:
                             tgt = None
-                        tfq = getattr(tgt, 'fq', None)
+                        tfq = tgt[1].fq if (tgt and tgt[0] == 'func') else None
                         if tfq in summaries and any(j in summaries[tfq] and isinstance(a_, ast.Name) and a_.id == b
                                                     for j, a_ in enumerate(x.args)):
                             mut_nodes.add(n.id)
